@@ -83,27 +83,42 @@ def numAct (s : String) : Option (Nat × Char) :=
 
 def noFault : Fault := ⟨.temp, false⟩
 
+/-- body fault of the attempt: `-` none, `O` the spooled body cannot be opened, `<k>` / `<k>e` the
+reader fails after `k` octets (`e`: together with the last octets) -/
+def bodyFaultOf (s : String) : Option (Bool × Bool) :=
+  if s == "-" then some (false, false)
+  else if s == "O" then some (true, false)
+  else
+    let ds := if s.endsWith "e" then (s.dropEnd 1).toString else s
+    ds.toNat?.map (fun _ => (false, true))
+
+def parseScript8 (rs : List Nat) (ml lim rej dat st drp qt bf : String) : Option Script := do
+  let (mn, ma) ← numAct ml
+  let (mailN, mailF) ← (if ma == 'o' then some (0, noFault) else (faultOf ma).map (mn, ·))
+  let (limit, limF) ← (if lim == "-o" then some (none, noFault) else do
+    let (k, a) ← numAct lim
+    if a == 'o' then some (none, noFault) else (faultOf a).map (some k, ·))
+  let rejs ← rej.toList.mapM rejOf
+  let sts ← st.toList.mapM rejOf
+  if rejs.length != rs.length || sts.length != rs.length then none else
+  let (dataCmd, dataEnd) ← (match dat.toList with
+    | ['o'] => some (none, none)
+    | ['T'] => some (some FCls.temp, none)
+    | ['P'] => some (some FCls.perm, none)
+    | [c] => (faultOf c).map (fun f => (none, some f))
+    | _ => none)
+  let drop ← (if drp == "-" then some none else drp.toNat?.map some)
+  let _ ← (if qt == "o" then some noFault else qt.toList.head? >>= faultOf)   -- teardown: no effect
+  let (bo, br) ← bodyFaultOf bf
+  pure { mailN := mailN, mailF := mailF, limit := limit, limF := limF, rej := lookupOpt rs rejs,
+         dataCmd := dataCmd, dataEnd := dataEnd, lmtpSt := lookupOpt rs sts, lmtpDrop := drop,
+         bodyOpenF := bo, bodyReadF := br }
+
+/-- `mail/limit/rej/data/status/drop/quit[/body]` -/
 def parseScript (rs : List Nat) (s : String) : Option Script :=
   match s.splitOn "/" with
-  | [ml, lim, rej, dat, st, drp, qt] => do
-    let (mn, ma) ← numAct ml
-    let (mailN, mailF) ← (if ma == 'o' then some (0, noFault) else (faultOf ma).map (mn, ·))
-    let (limit, limF) ← (if lim == "-o" then some (none, noFault) else do
-      let (k, a) ← numAct lim
-      if a == 'o' then some (none, noFault) else (faultOf a).map (some k, ·))
-    let rejs ← rej.toList.mapM rejOf
-    let sts ← st.toList.mapM rejOf
-    if rejs.length != rs.length || sts.length != rs.length then none else
-    let (dataCmd, dataEnd) ← (match dat.toList with
-      | ['o'] => some (none, none)
-      | ['T'] => some (some FCls.temp, none)
-      | ['P'] => some (some FCls.perm, none)
-      | [c] => (faultOf c).map (fun f => (none, some f))
-      | _ => none)
-    let drop ← (if drp == "-" then some none else drp.toNat?.map some)
-    let _ ← (if qt == "o" then some noFault else qt.toList.head? >>= faultOf)   -- teardown: no effect
-    pure { mailN := mailN, mailF := mailF, limit := limit, limF := limF, rej := lookupOpt rs rejs,
-           dataCmd := dataCmd, dataEnd := dataEnd, lmtpSt := lookupOpt rs sts, lmtpDrop := drop }
+  | [ml, lim, rej, dat, st, drp, qt] => parseScript8 rs ml lim rej dat st drp qt "-"
+  | [ml, lim, rej, dat, st, drp, qt, bf] => parseScript8 rs ml lim rej dat st drp qt bf
   | _ => none
 
 def quiet : Script :=
@@ -113,7 +128,8 @@ def quiet : Script :=
 /-- next hop of a recipient form under target.remote: one MX per distinct domain string -/
 def domOfForm (c : Char) : Option Nat :=
   match c with
-  | 'a' => some 0 | 'l' => some 0 | 'u' => some 1 | 'i' => some 2 | 'b' => some 3 | _ => none
+  | 'a' => some 0 | 'l' => some 0 | 'n' => some 0 | 'u' => some 1 | 'i' => some 2 | 'b' => some 3
+  | 'j' => some 4 | _ => none
 
 def lookupNat (rs : List Nat) (vs : List Nat) (r : Nat) : Nat :=
   match (rs.zip vs).find? (fun p => p.1 == r) with
@@ -134,9 +150,9 @@ def handleHop : List String → String
         | some tk =>
           let scriptAt : Nat → Script := fun i => (ss[i]?).getD quiet
           let dom : Nat → Nat := if tk == .remote then lookupNat rs ds else fun _ => 0
-          let nd := if tk == .remote then 4 else 1
+          let nd := if tk == .remote then 5 else 1
           -- non-ASCII local part and no SMTPUTF8 at the next hop: refused locally
-          let locals := (rs.zip forms.toList).filter (fun p => p.2 == 'l' && utf8 != "1") |>.map (·.1)
+          let locals := (rs.zip forms.toList).filter (fun p => (p.2 == 'l' || p.2 == 'n') && utf8 != "1") |>.map (·.1)
           let lr : Nat → Bool := fun r => locals.contains r
           let res := runHop maxTries tk (dsn == "1") scriptAt lr dom nd (maxTries + 1) 0 ⟨rs, fun _ => 0⟩
           let cs := ",".intercalate (rs.map (fun r => s!"{r}={res.2.count r}"))
